@@ -648,6 +648,24 @@ impl Deco<'_, '_, '_> {
             if self.allow_elide && !left_rec_branch && self.b.d.chance(1, 8) {
                 place(&mut out, Regex::Elide, &mut self.b.d);
             }
+            // state set in front of an ordered choice must survive the alternatives it abandons
+            fn holds_choice(r: &Regex) -> bool {
+                match r {
+                    Regex::Choice(_) => true,
+                    Regex::Paren(Some(b)) => holds_choice(b),
+                    _ => false,
+                }
+            }
+            if let Some(ci) = out.iter().position(holds_choice) {
+                if ci > 0 && !left_rec_branch && !matches!(out[ci - 1], Regex::Pred(_)) && self.b.d.chance(1, 3) {
+                    if self.allow_elide && self.b.d.chance(1, 2) {
+                        out.insert(ci, Regex::Elide);
+                    } else if !self.is_start || p.c11_shapes {
+                        let name = self.node_name();
+                        out.insert(ci, Regex::Rename(name));
+                    }
+                }
+            }
             // an unindexed creation reaches back to the start of the rule: inside an open marker
             // range or an undoable attempt it would cross them (only generated on request)
             let crossing_ok = p.crossing || (self.open_markers == 0 && !active_choice);
